@@ -114,13 +114,14 @@ impl Decoder for Codec {
                 }
                 DecodeState::PublishHeader(fixed) => {
                     if let Some(hdr_len) = decode::publish_size(src, fixed.first_byte)? {
-                        if src.len() < hdr_len as usize {
-                            return Ok(None);
-                        }
+                        // header can not be larger than the frame
                         let payload_len = fixed
                             .remaining_length
                             .checked_sub(hdr_len)
                             .ok_or(DecodeError::InvalidLength)?;
+                        if src.len() < hdr_len as usize {
+                            return Ok(None);
+                        }
                         let mut buf = src.split_to(hdr_len as usize);
                         let publish = decode::decode_publish_packet(
                             &mut buf,
@@ -153,6 +154,10 @@ impl Decoder for Codec {
                             Bytes::new(),
                             fixed.remaining_length,
                         )));
+                    }
+                    // whole frame is available, but its header is still incomplete
+                    if src.len() >= fixed.remaining_length as usize {
+                        return Err(DecodeError::InvalidLength);
                     }
                     return Ok(None);
                 }
